@@ -325,6 +325,83 @@ func c03RoleMatrix(c *ctx, u *universe, emitEvery int) {
 }
 
 // ---------------------------------------------------------------------------------------------
+// family 1b: ESDTNFTCreate quantities around the "> 1" boundary AS BIG INTEGERS (an argument longer than 8 bytes whose
+// low 64 bits are 0 or 1 must still need the AddQuantity role), for callers that hold NFTCreate with / without
+// NFTAddQuantity (incl. AddQuantity only for a different token, or held by another account)
+// ---------------------------------------------------------------------------------------------
+func c03CreateQuantities(c *ctx, u *universe, emitEvery int) {
+	T, T2 := u.NFTs[1], u.NFTs[0]
+	A, B := u.U[0], u.U[1]
+	meta := [][]byte{[]byte("name"), be(100), []byte("hash"), []byte("attr"), []byte("uri")}
+	pow := func(n uint) *big.Int { return new(big.Int).Lsh(big.NewInt(1), n) }
+	plus1 := func(x *big.Int) *big.Int { return new(big.Int).Add(x, big.NewInt(1)) }
+	hundred := bytes.Repeat([]byte{0x7f}, 100)
+	hundredLow1 := append(append([]byte{0x01}, make([]byte, 98)...), 0x01) // 100 bytes, low 64 bits = 1
+	qs := [][]byte{nil, {0}, be(1), {0, 0, 1}, be(2), be(3), be(1<<64 - 1), pow(64).Bytes(), plus1(pow(64)).Bytes(), new(big.Int).Add(pow(64), big.NewInt(2)).Bytes(),
+		pow(128).Bytes(), plus1(pow(128)).Bytes(), plus1(pow(72)).Bytes(), hundred, hundredLow1, append([]byte{0}, plus1(pow(64)).Bytes()...)}
+	create, addq := u.AllRoles[2], u.AllRoles[3]
+	var allButAdd [][]byte
+	for _, r := range u.AllRoles {
+		if !bytes.Equal(r, addq) {
+			allButAdd = append(allButAdd, r)
+		}
+	}
+	type setup struct {
+		name  string
+		roles func(s *c05Scen)
+		both  bool // the caller holds both roles for T: every positive quantity is allowed
+	}
+	setups := []setup{
+		{"create-only", func(s *c05Scen) { c05Must(s.sys(A, "ESDTSetRole", T, create), "q roles") }, false},
+		{"all-but-addquantity", func(s *c05Scen) { c05Must(s.sys(A, "ESDTSetRole", append([][]byte{T}, allButAdd...)...), "q roles") }, false},
+		{"addquantity-for-other-token", func(s *c05Scen) {
+			c05Must(s.sys(A, "ESDTSetRole", T, create), "q roles")
+			c05Must(s.sys(A, "ESDTSetRole", append([][]byte{T2}, u.AllRoles...)...), "q roles")
+		}, false},
+		{"addquantity-at-other-account", func(s *c05Scen) {
+			c05Must(s.sys(A, "ESDTSetRole", T, create), "q roles")
+			c05Must(s.sys(B, "ESDTSetRole", T, addq, create), "q roles")
+		}, false},
+		{"addquantity-only", func(s *c05Scen) { c05Must(s.sys(A, "ESDTSetRole", T, addq), "q roles") }, false},
+		{"create-and-addquantity", func(s *c05Scen) { c05Must(s.sys(A, "ESDTSetRole", T, create, addq), "q roles") }, true},
+	}
+	one := big.NewInt(1)
+	okBig, okOne := 0, 0
+	for si, su := range setups {
+		w := u.stdWorld(2, 1, distinctGas(uint64(11+si), 3))
+		s := &c05Scen{c: c, u: u, w: w, label: "create-quantity", mons: c03Mons, emitEvery: 0}
+		su.roles(s)
+		s.emitEvery = emitEvery
+		for _, q := range qs {
+			sr := s.tx(A, A, "ESDTNFTCreate", bigGas, append([][]byte{T, q}, meta...)...)
+			z := new(big.Int).SetBytes(q)
+			class := "q<=0"
+			switch {
+			case z.Cmp(one) == 0:
+				class = "q=1"
+			case z.Cmp(one) > 0 && z.BitLen() > 64:
+				class = "q>1-beyond-64-bits"
+			case z.Cmp(one) > 0:
+				class = "q>1"
+			}
+			c.count(fmt.Sprintf("c03/create-quantity/%s/%s/%s", su.name, class, statusName(sr.Res.Status)))
+			if sr.Res.Status == 0 && z.Cmp(one) > 0 && !su.both {
+				c.fail("monitor", "role-missing/ESDTNFTCreate/ESDTRoleNFTAddQuantity", fmt.Sprintf("ESDTNFTCreate with quantity %s (> 1) succeeded for a caller without ESDTRoleNFTAddQuantity for the token (%s)", z, su.name), c05Replay(sr, s.hist))
+			}
+			if sr.Res.Status == 0 && su.both && z.Cmp(one) > 0 {
+				okBig++
+			}
+			if sr.Res.Status == 0 && z.Cmp(one) == 0 {
+				okOne++
+			}
+		}
+	}
+	if okBig == 0 || okOne == 0 {
+		c.fail("harness", "setup/create-quantity-vacuous", "the create-quantity family never saw a successful create (quantity 1 / quantity > 1 with both roles)", nil)
+	}
+}
+
+// ---------------------------------------------------------------------------------------------
 // family 2: system-only functions with every caller identity and presence pattern
 // ---------------------------------------------------------------------------------------------
 func c03SystemOnly(c *ctx, u *universe, emitEvery int) {
@@ -537,13 +614,14 @@ func init() {
 		u := newUniverse()
 		wide := c.thorough() || c.widen
 		runtime.GOMAXPROCS(1) // sequential run; exec reads runtime.MemStats around every call (stop-the-world)
-		c.rep.Rule = "Monitors on the real built-ins after every executed call, against the deep pre-state of all shards: (1) a successful role-gated call (LocalMint, LocalBurn, NFTCreate [+AddQuantity role when quantity > 1], AddQuantity, NFTBurn, AddURI, UpdateAttributes) implies that the caller's own decoded role list under ELRONDroleesdt+token in the pre-state holds the required role(s); (2) any change of a role list, a fungible entry's frozen flag, a 2-byte pause flag in the system account, a wipe, or a create counter outside the creator's own ESDTNFTCreate implies caller = ESDT SC address, or the call has the hand-over continuation shape (ESDTNFTCreateRoleTransfer with the sender account not local); (3) owner / developer reward / balance fields change only by ChangeOwnerAddress / ClaimDeveloperRewards of the recipient's current owner, the user name only by SetUserName of a configured DNS address; any other attempt changes no cell on any shard (origin-side executions without a local recipient change nothing and may emit the travelling message); rejected calls change nothing. Families: role matrix (all 128 subsets of the 7 roles x 8 gated calls x {list for that token, only for a different token, held by another account, no list}, roles installed with the real ESDTSetRole / ESDTUnSetRole); system-only functions x 10 caller identities x 4 presence patterns x 3 call variants (must fail and leave the world digest unchanged, control: the system contract); owner / DNS enumeration (12 callers x 4 targets x call types, gas, presence patterns, same and cross shard with delivery, ownership histories, user-name change enabled and disabled); random walks with raised system / account / hostile weights. Executed calls are re-evaluated in the Coq model (status + full post-state). distinct = distinct (world state, operation)."
+		c.rep.Rule = "Monitors on the real built-ins after every executed call, against the deep pre-state of all shards: (1) a successful role-gated call (LocalMint, LocalBurn, NFTCreate [+AddQuantity role when quantity > 1], AddQuantity, NFTBurn, AddURI, UpdateAttributes) implies that the caller's own decoded role list under ELRONDroleesdt+token in the pre-state holds the required role(s); (2) any change of a role list, a fungible entry's frozen flag, a 2-byte pause flag in the system account, a wipe, or a create counter outside the creator's own ESDTNFTCreate implies caller = ESDT SC address, or the call has the hand-over continuation shape (ESDTNFTCreateRoleTransfer with the sender account not local); (3) owner / developer reward / balance fields change only by ChangeOwnerAddress / ClaimDeveloperRewards of the recipient's current owner, the user name only by SetUserName of a configured DNS address; any other attempt changes no cell on any shard (origin-side executions without a local recipient change nothing and may emit the travelling message); rejected calls change nothing. Families: role matrix (all 128 subsets of the 7 roles x 8 gated calls x {list for that token, only for a different token, held by another account, no list}, roles installed with the real ESDTSetRole / ESDTUnSetRole); ESDTNFTCreate quantities {0, 1, 2, 3, 2^64-1, 2^64, 2^64+1, 2^64+2, 2^72+1, 2^128, 2^128+1, 100-byte values incl. low 64 bits = 1, leading zeros} x callers holding NFTCreate with / without NFTAddQuantity (also AddQuantity only for a different token or at another account), compared as big integers; system-only functions x 10 caller identities x 4 presence patterns x 3 call variants (must fail and leave the world digest unchanged, control: the system contract); owner / DNS enumeration (12 callers x 4 targets x call types, gas, presence patterns, same and cross shard with delivery, ownership histories, user-name change enabled and disabled); random walks with raised system / account / hostile weights. Executed calls are re-evaluated in the Coq model (status + full post-state). distinct = distinct (world state, operation)."
 		c05SetExecStream(c, c05ProjState)
 		e := 5
 		if wide {
 			e = 2
 		}
 		c03RoleMatrix(c, u, e)
+		c03CreateQuantities(c, u, 2)
 		c03SystemOnly(c, u, e-1)
 		c03OwnerDNS(c, u, e, false)
 		c03OwnerDNS(c, u, e*2, true)
@@ -554,6 +632,9 @@ func init() {
 		c.walk(u, walkOpts{Worlds: n, Ops: ops, Proj: c05ProjState, Monitors: []monitor{c05Adapt(c03Mons...)}, EmitProb: prob, MaxCases: max,
 			Tune: func(g *gen) {
 				g.wTransfer, g.wSupply, g.wSystem, g.wAccount, g.wDeliver, g.wHostile = 14, 30, 22, 14, 8, 12
+				// the standard creator loses AddQuantity for one NFT token: the generator's create quantities (incl. 2^64-1,
+				// 2^64, 100-byte values) then meet a caller with NFTCreate only
+				mustOK(g.w.sys(u, u.U[0], "ESDTUnSetRole", u.NFTs[c.rng.Intn(2)], u.AllRoles[3]), "walk unset addquantity")
 				for i, k := range u.K {
 					a := g.w.shards[g.w.shardOf(k)].account(k)
 					a.SetOwnerAddress(u.U[(2*i)%4])
